@@ -145,6 +145,8 @@ pub struct Rig {
     inject_tcp: Rc<RefCell<HashMap<(String, usize), Vec<bool>>>>,
     /// raw IPPROTO_UDP socket (needs CAP_NET_RAW; -1 if it could not be created)
     raw_fd: libc::c_int,
+    /// the statistics queue the server publishes to
+    stats_queue: Arc<StatsQueue>,
 }
 
 /// a UDP datagram to 127.0.0.1:`port` whose source port is 0 (hand-made UDP header, checksum 0 = none)
@@ -204,6 +206,7 @@ impl Rig {
         let hc_port = if cfg.hc { Some(std::net::TcpListener::bind("127.0.0.1:0").map_err(|e| e.to_string())?.local_addr().unwrap().port()) } else { None };
         mc.health_check_port = hc_port;
         let queue = Arc::new(StatsQueue::new(4));
+        let stats_queue = queue.clone();
         let server = guarded(|| Server::new(&mc, sock, queue)).map_err(|p| format!("Server::new panicked: {}", p))?;
         let announced_key = server.get_public_key().to_string();
         let seed32: [u8; 32] = cfg.seed.clone().try_into().map_err(|_| "seed must be 32 bytes".to_string())?;
@@ -224,7 +227,7 @@ impl Rig {
         let rig = Rig { secrets: Secrets::new(&cfg.seed), cfg, server: Some(server), events: Events::with_capacity(1024), addr, clients, ltk_pub, srv,
             hooks, inject, counts, recv_count, root_ids: HashMap::new(), key_ids: HashMap::new(), announced_key, drifted: 0, injected_at: Rc::new(RefCell::new(Vec::new())), recv_sleep_ms: Rc::new(std::cell::Cell::new(0)),
             hc_port, hc_streams: Rc::new(RefCell::new(Vec::new())), inject_tcp: Rc::new(RefCell::new(HashMap::new())),
-            raw_fd: unsafe { libc::socket(libc::AF_INET, libc::SOCK_RAW, libc::IPPROTO_UDP) } };
+            raw_fd: unsafe { libc::socket(libc::AF_INET, libc::SOCK_RAW, libc::IPPROTO_UDP) }, stats_queue };
         rig.install_tracer();
         Ok(rig)
     }
@@ -402,6 +405,27 @@ impl Rig {
             }
             None => json!({"ev": "stats", "valid": 0, "invalid": 0, "responses": 0, "bytes": 0}),
         }
+    }
+
+    /// run the status timer's step (Server::send_client_stats) on the real server, then pop everything its queue holds
+    pub fn publish_event(&mut self) -> Value {
+        let panic = match self.server.as_mut() { Some(s) => guarded(|| s.verif_send_client_stats()).err(), None => Some("server gone".to_string()) };
+        let (mut snapshots, mut entries) = (0u64, 0u64);
+        let mut sum = [0u64; 5];   // valid, invalid, responses, bytes, failed
+        while let Some(list) = self.stats_queue.pop() {
+            snapshots += 1;
+            for c in list {
+                entries += 1;
+                sum[0] += c.rfc_requests as u64 + c.classic_requests as u64;
+                sum[1] += c.invalid_requests as u64;
+                sum[2] += c.rfc_responses_sent as u64 + c.classic_responses_sent as u64;
+                sum[3] += c.bytes_sent as u64;
+                sum[4] += c.failed_send_attempts as u64;
+            }
+        }
+        let post_zero = match self.server.as_ref() { Some(s) => { let st = s.verif_stats(); st.total_valid_requests() == 0 && st.total_invalid_requests() == 0 && st.total_responses_sent() == 0 && st.total_unique_clients() == 0 }, None => false };
+        json!({"ev": "publish", "client_stats": self.cfg.client_stats, "panic": panic.is_some(), "snapshots": snapshots, "entries": entries,
+               "valid": sum[0], "invalid": sum[1], "responses": sum[2], "bytes": sum[3], "failed": sum[4], "post_zero": post_zero})
     }
 
     pub fn server_mut(&mut self) -> Option<&mut Server> { self.server.as_mut() }
